@@ -456,3 +456,42 @@ def apply_invariants(I, v, inv, seen=None):
             if s[0] == 'elem': apply_invariants(I, s[1], inv, seen)
     elif isinstance(v, TupleV):
         for x in v.items: apply_invariants(I, x, inv, seen)
+
+
+def refused(guards, cond, facts=()):
+    """some refusal met is the condition `cond`, however it is written (`x < 7` is `x <= 6`, `!(a < b)` is `b <= a`, a
+    range pattern is two comparisons): compared as functions of the inputs by the decision procedure"""
+    want = ite(cond, ONE, ZERO)
+    for x in guards:
+        c = x['cond']
+        if c == cond: return True
+        if is_term(c) and len(cond_atoms(ite(c, ONE, ZERO)) | cond_atoms(want)) <= 8 and equal(ite(c, ONE, ZERO), want, facts)[0]: return True
+    return False
+
+
+def only_constructed(facts, ty):
+    """every value of the struct `ty` comes out of one of its own constructor functions unchanged: all fields private,
+    struct literals of the type only inside its inherent functions that return Self without taking self, no assignment
+    to a field anywhere, no inherent method taking `&mut self` or consuming and returning self"""
+    key = ('_only_constructed', ty)
+    cache = facts.__dict__.setdefault('_oc_cache', {})
+    if ty in cache: return cache[ty]
+    adt = facts.adt(ty)
+    ok = bool(adt) and adt.get('kind') == 'Struct' and all(fd.get('vis') == 'priv' for fd in adt['variants'][0]['fields'])
+    def has(e, pred):
+        if isinstance(e, dict):
+            if pred(e): return True
+            return any(has(v, pred) for v in e.values())
+        if isinstance(e, list): return any(has(v, pred) for v in e)
+        return False
+    if ok:
+        for d, b in facts.bodies.items():
+            if b.get('body') is None: continue
+            mine = norm_ty(b.get('self_ty') or '').split('<')[0] == ty and not b.get('trait')
+            if mine and classify(b, b['self_ty']) in ('mut', 'builder'): ok = False; break
+            lit = has(b['body'], lambda e: e.get('k') == 'Adt' and norm_ty(e.get('ty', '')).split('<')[0] == ty)
+            if lit and not (mine and classify(b, b['self_ty']) == 'ctor'): ok = False; break
+            if has(b['body'], lambda e: e.get('k') in ('Assign', 'AssignOp') and isinstance(e.get('lhs'), dict) and e['lhs'].get('k') == 'Field'
+                   and isinstance(e['lhs'].get('lhs'), dict) and strip_refs(norm_ty(e['lhs']['lhs'].get('ty', ''))).split('<')[0] == ty): ok = False; break
+    cache[ty] = ok
+    return ok
